@@ -48,6 +48,7 @@ func runValueSearch(t *testing.T, sc *valSc) (vals []emitted, getRes []byte, get
 		tag := strings.TrimPrefix(key, "/v/")
 		ctx, cancel := context.WithCancel(context.Background())
 		defer cancel()
+		simExpiredLocal = nil
 		switch {
 		case sc.Local >= 1:
 			if err := env.d.putLocal(ctx, key, record.MakePutRecord(key, simValue(sc.Local, tag, "local"))); err != nil {
@@ -55,6 +56,7 @@ func runValueSearch(t *testing.T, sc *valSc) (vals []emitted, getRes []byte, get
 			}
 		case sc.Local == -5:
 			v := simValue(9, tag, fmt.Sprintf("exp=%d", time.Now().Unix()+30))
+			simExpiredLocal = v
 			if err := env.d.putLocal(ctx, key, record.MakePutRecord(key, v)); err != nil {
 				panic(err)
 			}
@@ -96,7 +98,7 @@ func TestVerif_C04_Values(t *testing.T) {
 	verifsim.RunCheck(t, verifsim.Check[valSc]{
 		Property: "C04", Part: "values",
 		Rule: "rapid: C01-style networks of 1-25 peers whose GET_VALUE answers carry a drawn assignment of {valid record of rank 1-3, invalid value, record filed under another key whose value would be " +
-			"the best for the requested key, empty value, malformed value, no record}; local storage empty / valid rank / a record that has since expired by the validator's rule; quorum 0/1/2/16, with or without the Offline option; " +
+			"the best for the requested key, empty value, malformed value, no record}; local storage empty / valid rank / a record that has since expired by the validator's rule (in half of those cases 1-2 responders serve the very same bytes); quorum 0/1/2/16, with or without the Offline option; " +
 			"SearchValue (stream; the consumer reads at once or pauses 1-3000 ms after every value) or GetValue; optional cancellation; oracle = every yielded value validates now, the stream is strictly improving under Select, the final value is at least as good as " +
 			"every valid value of local storage and of every answer delivered before the stream ended, nothing valid supplied => not-found; non-trivial = valid and invalid/mis-keyed records in the same case, or an invalid local record",
 		Gen: func(t *rapid.T) valSc {
@@ -124,6 +126,12 @@ func TestVerif_C04_Values(t *testing.T) {
 			s.Seeds = rapid.SliceOfNDistinct(rapid.IntRange(0, n-1), ns, ns, func(i int) int { return i }).Draw(t, "seeds")
 			sc.Quorum = rapid.SampledFrom([]int{0, 1, 2, 16}).Draw(t, "quorum")
 			sc.Local = rapid.SampledFrom([]int{0, 0, 1, 2, 3, 4, -5, -5}).Draw(t, "local")
+			if sc.Local == -5 && rapid.Bool().Draw(t, "echoExpired") {
+				// one or two responders serve the very bytes of the expired local record
+				for j := rapid.IntRange(1, 2).Draw(t, "nEcho"); j > 0; j-- {
+					s.Peers[rapid.IntRange(0, n-1).Draw(t, "echoPeer")].Val = -6
+				}
+			}
 			sc.UseGet = rapid.Bool().Draw(t, "useGet")
 			if rapid.IntRange(0, 5).Draw(t, "cancel") == 0 {
 				sc.CancelMs = rapid.IntRange(1, 8000).Draw(t, "cancelMs")
